@@ -46,6 +46,9 @@ type loopSpec struct {
 	Ty      string // type of the counter and of the parameters: "" = int, or uint8 / int8 / uint16 / int32
 }
 
+// the declarations every file of generated loops starts with
+const loopTypeDecls = "type Addr uint64\n\ntype Off = uint64\n\n"
+
 func (l loopSpec) ty() string {
 	if l.Ty == "" {
 		return "int"
@@ -311,8 +314,8 @@ func suiteLoops(c *Ctx) error {
 	r := NewRng(c.Seed)
 	var specs []loopSpec
 	var plain, twin strings.Builder
-	plain.WriteString("package genpkg\n\ntype Addr uint64\n\ntype Off = uint64\n\n")
-	twin.WriteString("package main\n\nimport \"fmt\"\n\ntype Addr uint64\n\ntype Off = uint64\n\n")
+	plain.WriteString("package genpkg\n\n" + loopTypeDecls)
+	twin.WriteString("package main\n\nimport \"fmt\"\n\n" + loopTypeDecls)
 	for i := 0; i < n; i++ {
 		l := genLoopSpec(r.Fork(), i)
 		specs = append(specs, l)
